@@ -35,6 +35,8 @@ func c17Fixture() *c17Fix {
 	f.Image("B3", mtImg, "e", nil, "I2", "application/x.test", nil)
 	f.Image("B4", mtImg, "e", nil, s3, "application/x.test", nil)
 	f.Image("Bmiss", mtImg, "e", nil, "I1", "application/x.test", map[string]string{"never": "stored"})
+	// B5: both an artifactType and a typed, non-empty config: the artifactType field is what a listing shows
+	f.Image("B5", mtImg, "c", []string{"l1"}, "I1", "application/x.test", map[string]string{"k": "b5"})
 	f.Image("U", mtImg, "c", []string{"l2"}, "", "", map[string]string{"unrelated": "image"})
 	return &c17Fix{Fix: f, subj: map[string]string{"S1": f.Items["I1"].Dig, "S2": f.Items["I2"].Dig, "S3": s3}}
 }
@@ -187,6 +189,9 @@ func c17Layouts(tier string) []c17Layout {
 		c17Layout{Name: "S1[B1] tagged artifacts", Fallback: map[string][]c17Entry{"S1": {{"B1", "accurate"}}}, TagArt: true},
 		c17Layout{Name: "S1[B1:stale] tagged artifacts", Fallback: map[string][]c17Entry{"S1": {{"B1", "stale-size"}}}, TagArt: true},
 		c17Layout{Name: "no fallback tags", Fallback: map[string][]c17Entry{}},
+		c17Layout{Name: "S1[B5] (artifactType and typed config)", Fallback: map[string][]c17Entry{"S1": {{"B5", "accurate"}}}},
+		c17Layout{Name: "S1[B1,B5:stale-size]", Fallback: map[string][]c17Entry{"S1": {{"B1", "accurate"}, {"B5", "stale-size"}}}},
+		c17Layout{Name: "S1[B5:stale-type]", Fallback: map[string][]c17Entry{"S1": {{"B5", "stale-type"}}}},
 	)
 	// generated: every assignment "absent or listed in mode m" of the artifacts B1, B2, B3 (B3 names S2) to a fallback tag
 	arts := []string{"B1", "B2", "B3"}
